@@ -182,6 +182,11 @@ pub struct Wire {
     pub wb_inside_seen: u64,
     /// sweep: a would-block burst of the given length at exactly this unit position
     pub forced_wb: Option<(usize, u32)>,
+    /// serial port: what the port object reports about flow control (0 none, 1 software,
+    /// 2 hardware) and the percent chance that a modem status line reads "low" when asked
+    /// (CTS, DSR, carrier detect); none of it changes what the port accepts or delivers
+    pub flow_control: u8,
+    pub line_low_pct: u32,
     /// serial port: what the sender writes stays in its output queue until a `flush`
     /// succeeds; the receiving side sees only flushed bytes (an OS-buffered port)
     pub hold_until_flush: bool,
@@ -231,6 +236,8 @@ impl Wire {
             frames_this_poll: 0,
             wb_inside_seen: 0,
             forced_wb: None,
+            flow_control: 0,
+            line_low_pct: 0,
             hold_until_flush: false,
             flushed_len: 0,
             in_poll: false,
@@ -460,6 +467,18 @@ impl Dev {
         w.cursor += 1;
         w.advance_parse(b);
         b
+    }
+
+    /// Modem status lines are whatever the far end makes them: drawn from the tape when asked.
+    fn line_low(&self, which: &'static str) -> bool {
+        let _g = SimDomain::enter();
+        let pct = self.tx.borrow().line_low_pct;
+        let low = pct > 0 && self.sim.chance(pct);
+        self.sim.event(EV_TX, 18, low as u64, || format!("{}.serial.read_{} -> {}", self.name, which, if low { "low" } else { "high" }));
+        if low {
+            self.sim.count("modem_status_line_read_low");
+        }
+        low
     }
 
     /// A call that also uses the transmit side of the device is not stuck in a read loop: the
@@ -994,7 +1013,11 @@ impl serialport::SerialPort for Dev {
         Ok(serialport::DataBits::Eight)
     }
     fn flow_control(&self) -> serialport::Result<serialport::FlowControl> {
-        Ok(serialport::FlowControl::None)
+        Ok(match self.tx.borrow().flow_control {
+            1 => serialport::FlowControl::Software,
+            2 => serialport::FlowControl::Hardware,
+            _ => serialport::FlowControl::None,
+        })
     }
     fn parity(&self) -> serialport::Result<serialport::Parity> {
         Ok(serialport::Parity::None)
@@ -1030,16 +1053,16 @@ impl serialport::SerialPort for Dev {
         Ok(())
     }
     fn read_clear_to_send(&mut self) -> serialport::Result<bool> {
-        Ok(true)
+        Ok(!self.line_low("CTS"))
     }
     fn read_data_set_ready(&mut self) -> serialport::Result<bool> {
-        Ok(true)
+        Ok(!self.line_low("DSR"))
     }
     fn read_ring_indicator(&mut self) -> serialport::Result<bool> {
         Ok(false)
     }
     fn read_carrier_detect(&mut self) -> serialport::Result<bool> {
-        Ok(true)
+        Ok(!self.line_low("CD"))
     }
     fn bytes_to_read(&self) -> serialport::Result<u32> {
         Ok(self.rx.borrow().in_flight() as u32)
